@@ -1,11 +1,56 @@
-(* C05 -- placeholder while the proofs are being developed: states only that acceptance implies the by-itself checks. *)
+(* C05 -- header rules.  C05_header_rules: what acceptance by full validation implies (id below target, prescribed
+   target, height, reward height, time window, evidence = recomputed evidence).  C05_pow_numeric: the byte comparison is
+   the numeric one.  C05_retarget_spec: the prescribed target is the parent's off a boundary and
+   min(2^256-1, T_parent * elapsed / span) integer-exact at a boundary.  Bridges: the regenerated source text of
+   calculate_new_target / select_block_height equals the model, and the shipped constants are 10,080 / 1,209,600 / 30. *)
 From stdpp Require Import gmap.
 From Coq Require Import NArith ZArith.
-From SkV Require Import Bytes Codec Ledger ChainState Pow Validate.
-Theorem C05_accept_passes_by_itself : forall sha scrypt blake verify P s b now s',
-  add_block sha scrypt blake verify P s b now = Ok s' -> v_block_by_itself sha P b now = Ok tt.
-Proof.
-  intros sha scrypt blake verify P s b now s' H. unfold add_block, bind in H.
-  destruct (v_block_by_itself sha P b now) as [[]|k] eqn:E; [reflexivity | discriminate].
-Qed.
-Print Assumptions C05_accept_passes_by_itself.
+From SkV Require Import Bytes Codec Ledger ChainState Pow Validate ChainDefs HeaderProofs.
+From SkV Require Gen_Params Gen_Functions.
+
+Theorem C05_header_rules : forall sha scrypt blake verify P s b now s',
+  add_block sha scrypt blake verify P s b now = Ok s' -> FV P b ->
+  bytes_ltb (block_id sha b) (b_target b) = true /\
+  exists prev cb rest ev,
+    cs_blocks s !! b_prev b = Some prev /\ b_txs b = cb :: rest /\
+    calc_target sha P s (b_height prev + 1) (b_time b) prev = Some (b_target b) /\
+    b_height b = (b_height prev + 1)%N /\ cb_height cb = Some (b_height b) /\
+    (b_time prev < b_time b)%N /\ (b_time b <= now + p_max_future P)%N /\
+    construct_evidence sha scrypt blake P s (h_summary (b_header b)) (b_height b) (b_txs b) = Some ev /\
+    h_evidence (b_header b) = ev.
+Proof. exact accept_sound_header. Qed.
+
+Theorem C05_pow_numeric : forall id tg, length id = 32%nat -> length tg = 32%nat -> bytes_wf id -> bytes_wf tg ->
+  (bytes_ltb id tg = true <-> (be_dec id < be_dec tg)%N).
+Proof. exact pow_check_numeric. Qed.
+
+Theorem C05_retarget_spec : forall sha P s height ts prev tg,
+  calc_target sha P s height ts prev = Some tg ->
+  ((height mod p_period P)%N <> 0%N -> tg = b_target prev) /\
+  ((height mod p_period P)%N = 0%N -> exists idx start,
+     cs_byheight s !! block_id sha prev = Some idx /\ idx !! (height - p_period P)%N = Some start /\
+     (b_time start <= ts)%N /\ (p_period P <= height)%N /\
+     tg = be_enc 32 (N.min (2 ^ 256 - 1) (be_dec (b_target prev) * (ts - b_time start) / p_span P))).
+Proof. exact calc_target_spec. Qed.
+
+Theorem C05_bridge_new_target : forall P t dt, bytes_wf t ->
+  Z.of_N (p_span P) = Gen_Params.DESIRED_TARGET_READJUSTMENT_TIMESPAN ->
+  Gen_Functions.calculate_new_target (map Z.of_N t) (Z.of_N dt) = map Z.of_N (Pow.calculate_new_target P t dt).
+Proof. exact bridge_new_target. Qed.
+Theorem C05_bridge_select_height : forall h height, bytes_wf h -> (0 < height)%N ->
+  Gen_Functions.select_block_height (map Z.of_N h) (Z.of_N height) = Z.of_N (Pow.select_block_height h height).
+Proof. exact bridge_select_height. Qed.
+Theorem C05_constants : Gen_Params.BLOCKS_BETWEEN_TARGET_READJUSTMENT = 10080%Z /\
+  Gen_Params.DESIRED_TARGET_READJUSTMENT_TIMESPAN = 1209600%Z /\ Gen_Params.MAX_FUTURE_BLOCK_TIME = 30%Z.
+Proof. exact gen_constants. Qed.
+Theorem C05_sampler_total : forall h ser len, ser <> [] ->
+  exists r, select_block_slice h ser len = Some r /\ length r = len.
+Proof. exact slice_total. Qed.
+
+Print Assumptions C05_header_rules.
+Print Assumptions C05_pow_numeric.
+Print Assumptions C05_retarget_spec.
+Print Assumptions C05_bridge_new_target.
+Print Assumptions C05_bridge_select_height.
+Print Assumptions C05_constants.
+Print Assumptions C05_sampler_total.
